@@ -55,7 +55,7 @@ def kf_frontmatter_and_sentinel(case):
     return case.get("clause") in ("text", "cli") and case["doc"]["front"] is not None and bool(case["doc"]["gv"])
 
 
-CLASSES = {f.__name__: f for f in (kf_seal_keyed_section_inserted, kf_frontmatter_and_sentinel)}
+CLASSES = {f.__name__: f for f in (kf_seal_keyed_section_inserted,)}
 
 
 def same(a, b):
